@@ -81,6 +81,14 @@ func genFacts(repo string, field, scal, root *pkgSrc, out string) {
 			return true
 		})
 	}
+	// any mention of a crypto.Hash constant anywhere in the module (covers `h := crypto.SHA256; h.New()`, tables, …)
+	if sharedImporter != nil {
+		for _, obj := range sharedImporter.info.Uses {
+			if c, ok := obj.(*types.Const); ok && c.Pkg() != nil && c.Pkg().Path() == "crypto" && c.Type().String() == "crypto.Hash" {
+				ids[c.Name()] = true
+			}
+		}
+	}
 	b.WriteString("/-- hash identifiers looked up through the `crypto` registry (`crypto.<ID>.New()`) in the root package -/\n")
 	b.WriteString("def registryHashes : List String := [" + quoteAll(sortedKeys(ids)) + "]\n\n")
 	b.WriteString("/-- hash packages whose constructor is called directly (no registry lookup) -/\n")
@@ -103,6 +111,11 @@ func genFacts(repo string, field, scal, root *pkgSrc, out string) {
 	b.WriteString("def sliceAPIs : List String := [" + quoteAll(apis) + "]\n\n")
 	b.WriteString("/-- every statement through which such a function (or a callee) can write to a caller-supplied slice -/\n")
 	b.WriteString("def sliceParamWrites : List String := [" + quoteAll(sw) + "]\n\n")
+	tbl, aw := apiFootprints()
+	b.WriteString("/-- footprint table of the API (C16): for every exported function or method of the root package, whether it is a\nmethod, and for every parameter through which caller memory is reachable (receiver = position 0 of a method):\n`(position, name, may the call write memory reachable through it)` -/\n")
+	b.WriteString("def apiFootprints : List (String × Bool × List (Nat × String × Bool)) := [\n  " + strings.Join(tbl, ",\n  ") + "]\n\n")
+	b.WriteString("/-- every statement through which an API function may write memory reachable from a parameter other than its receiver -/\n")
+	b.WriteString("def apiArgWrites : List String := [" + quoteAll(aw) + "]\n\n")
 	b.WriteString("end Facts\n")
 	writeIfChanged(out+"/Facts.lean", b.String())
 }
